@@ -48,7 +48,19 @@ def run(ctx, model_available=True):
                                                       version=5, id_request=0.5, config=0.5, log=0.5, sketch=0.5, gw_ready=0.5,
                                                       discover_resp=0.5, heartbeat=1, pre_sleep=1, post_sleep=1,
                                                       other_internal=5, stream=2), p_fault=0.1)]
-    res = run_property(ctx, "C05", profiles=profiles, n_quick=500, n_thorough=8000, oracle=oracle_c05,
+    # directed: a controller restart on a persistence file (node 0 restored with the version it had,
+    # the new Gateway knows no version yet), then the gateway presents itself / answers the version
+    # query with the same, an older or a newer version; and a presentation after a version reply
+    hs = []
+    for stored in ("2.2.0", "2.0", "1.5", "2.1.1", "1.4"):
+        for first in (f"0;255;0;0;18;{stored}", f"0;255;3;0;2;{stored}", "0;255;0;0;18;2.1", "0;255;3;0;2;1.5.2"):
+            for second in (None, f"0;255;0;0;18;{stored}", "0;255;3;0;2;2.2.0"):
+                ops = [("put_node", 0, 18, stored, False), ("put_node", 5, 17, stored, False), ("recv", "5;255;3;0;22;7", ()),
+                       ("recv", first, ()), ("recv", "5;255;3;0;22;7", ()), ("recv", "5;255;3;0;32;", ()), ("recv", "5;255;4;0;1;00", ())]
+                if second:
+                    ops += [("recv", second, ()), ("recv", "5;255;3;0;22;7", ()), ("recv", "5;255;3;0;15;", ())]
+                hs.append(ops)
+    res = run_property(ctx, "C05", profiles=profiles, histories=hs, n_quick=500, n_thorough=8000, oracle=oracle_c05,
                        model_available=model_available,
                        assumptions=["release strings outside the grammar [vV]?d+(.d+)*.? are compared by the AwesomeVersion library (oracle); the selection table is checked only inside the grammar"])
     res["failures"] = failures[:3] + res["failures"]
